@@ -53,7 +53,11 @@ def rm_scratch(d):
 def cargo_env():
     env = dict(os.environ)
     env["CARGO_NET_OFFLINE"] = "true"
-    env.pop("RUSTFLAGS", None)  # harness/.cargo/config.toml carries the cfg flags
+    # nothing inherited from the caller's shell may redirect or reconfigure the build (a CARGO_TARGET_DIR left in the
+    # environment once made a check run a stale binary): the harness configuration is in harness/.cargo/config.toml
+    for k in ("RUSTFLAGS", "CARGO_TARGET_DIR", "CARGO_BUILD_TARGET_DIR", "CARGO_BUILD_RUSTFLAGS", "CARGO_ENCODED_RUSTFLAGS",
+              "CARGO_BUILD_TARGET", "RUSTC_WRAPPER", "CARGO_INCREMENTAL"):
+        env.pop(k, None)
     return env
 
 
@@ -107,7 +111,7 @@ def build(packages, timeout=1800):
         stamps.append(stamp)
         if stale:
             _drop_fingerprints(os.path.join(TARGET, "release", ".fingerprint"), ["agdb", "agdb_derive", p])
-    cmd = ["cargo", "build", "--release", "--offline"]
+    cmd = ["cargo", "build", "--release", "--offline", "--target-dir", TARGET]
     for p in packages:
         cmd += ["-p", p]
     t0 = time.time()
